@@ -193,9 +193,18 @@ def offset_sign_rules(db, chk, cfg, rule="OFFSET.sign"):
 # C19
 # ---------------------------------------------------------------------------
 
-def _mink_hook(db, sizes):
-    """call hook answering size()/empty() of the two operands (sizes: {'pattern': n, 'path': m})."""
+def _mink_hook(db, sizes, dup=None):
+    """call hook answering size()/empty() of the two operands (sizes: {'pattern': n, 'path': m}) and, per operand, whether its last
+    vertex repeats its first (dup: {'path': bool, ...}; `X.back() == X.front()`)."""
+    dup = dup or {}
+
     def hook(name, argv, nd):
+        if name in ("operator==", "operator!=") and nd.get("kind") == "CXXOperatorCallExpr":
+            texts = sorted(canon(strip(a)) for a in kids(nd)[1:])
+            for base in sizes:
+                if texts == sorted([base + ".back()", base + ".front()"]) or texts == sorted(["%s[(%s.size() - 1)]" % (base, base), "%s[0]" % base]):
+                    v = bool(dup.get(base, False))
+                    return v if name == "operator==" else (not v)
         if name in ("size", "empty") and nd.get("kind") == "CXXMemberCallExpr":
             base = canon(db.member_base(nd))
             if base in sizes:
@@ -206,10 +215,10 @@ def _mink_hook(db, sizes):
     return hook
 
 
-def _mink_prefix_env(db, f, stmts, sizes, extra):
+def _mink_prefix_env(db, f, stmts, sizes, extra, dup=None):
     """Interpret the declarations of the straight-line part of detail::Minkowski (everything outside its loops) for given operand
     sizes / flags.  Returns (env, returned_early, indexed_before_return)."""
-    it = Interp(db, dict(extra), [], call_hook=_mink_hook(db, sizes))
+    it = Interp(db, dict(extra), [], call_hook=_mink_hook(db, sizes, dup))
     returned = False
     indexed = False
     for s in stmts:
@@ -360,30 +369,45 @@ def minkowski_rules(db, chk, cfg, rule="MINK"):
             roles = (I, J, G, H, outer, inner)
     # (c) closing edge of the path only when closed: I starts at 0 (closed) / 1 (open), G at last / first, the loop runs while I < pathLen
     ok = roles is not None
+    why_ce = ""
     if ok:
         I, J, G, H, outer, inner = roles
+        # every combination of: path closed or open, and (for each operand) its last vertex repeating its first.  A repeated closing
+        # vertex only contributes zero-length edges to a *closed* outline (the pattern always is one), so there - and only there - the
+        # range may stop one short.
         for closed in (False, True):
-            env, returned, _ = _mink_prefix_env(db, f, stmts, {pat: 5, path: 7}, {isClosed: closed, isSum: True})
-            if returned or env.get(I) != (0 if closed else 1) or env.get(G) != (6 if closed else 0) or env.get(H) != 4:
-                ok = False
-            try:
-                for iv, want in ((6, True), (7, False)):
-                    e2 = dict(env)
-                    e2[I] = iv
-                    if bool(Interp(db, e2, [], call_hook=_mink_hook(db, {pat: 5, path: 7})).ev(kids(outer)[2])) != want:
+            for dpat in (False, True):
+                for dpath in (False, True):
+                    dup = {pat: dpat, path: dpath}
+                    env, returned, _ = _mink_prefix_env(db, f, stmts, {pat: 5, path: 7}, {isClosed: closed, isSum: True}, dup)
+                    if returned:
                         ok = False
-                for jv, want in ((4, True), (5, False)):
-                    e2 = dict(env)
-                    e2[J] = jv
-                    if bool(Interp(db, e2, [], call_hook=_mink_hook(db, {pat: 5, path: 7})).ev(kids(inner)[2])) != want:
+                        continue
+
+                    def bound(loop, cur):
+                        for b in range(1, 12):
+                            e2 = dict(env)
+                            e2[cur] = b
+                            if not bool(Interp(db, e2, [], call_hook=_mink_hook(db, {pat: 5, path: 7}, dup)).ev(kids(loop)[2])):
+                                return b
+                        return None
+                    try:
+                        bI, bJ = bound(outer, I), bound(inner, J)
+                    except Unsupported:
                         ok = False
-            except Unsupported:
-                ok = False
+                        continue
+                    okI = bI == 7 or (bI == 6 and closed and dpath)
+                    okJ = bJ == 5 or (bJ == 4 and dpat)
+                    if not (okI and okJ and env.get(I) == (0 if closed else 1) and env.get(G) == ((bI - 1) if closed else 0) and env.get(H) == bJ - 1):
+                        ok = False
+                        why_ce = ("isClosed=%s, path %s, pattern %s: path cursor runs %s..%s (previous starts at %s), pattern cursor up to %s (previous %s)"
+                                  % (closed, "ends on its first vertex" if dpath else "has distinct ends", "ends on its first vertex" if dpat else "has distinct ends",
+                                     env.get(I), (bI - 1) if bI else "?", env.get(G), (bJ - 1) if bJ else "?", env.get(H)))
     n += 1
     chk.instance(rule + ".closing-edge", {"obligation": "edges (previous, current) run over current = (closed ? 0 : 1)..pathLen-1 with previous starting at the last (closed) / "
                                                         "first (open) point; the pattern index runs over 0..patLen-1 with previous = patLen-1", "cfg": cfg}, ok=ok)
     if not ok:
-        chk.violation(rule + ".closing-edge", f.qual, "isClosed", "the range of path edges swept (closing edge only when isClosed) changed", f.where, cfg=cfg)
+        chk.violation(rule + ".closing-edge", f.qual, "isClosed", "the range of path edges swept (every edge of the path, the closing edge only when isClosed) changed%s" % ((": " + why_ce) if why_ce else ""), f.where, cfg=cfg)
     # (d) every quad is made positively oriented before it is stored: the statement that reverses the quad runs exactly when the quad is
     # negative (condition interpreted with IsPositive / Area answered for both orientations) and precedes the append to the result
     rev_sites = []
